@@ -453,34 +453,47 @@ func runC06(c *core.Ctx) {
 			if core.RecvName(fd) != recv {
 				return
 			}
-			// a function whose first statement compares with a ceiling constant and yields ErrRuntimeStackOverflow
-			if len(fd.Body.List) == 0 {
-				return
-			}
-			is, ok := fd.Body.List[0].(*ast.IfStmt)
-			if !ok && len(fd.Body.List) > 1 {
-				is, ok = fd.Body.List[1].(*ast.IfStmt)
-			}
-			if !ok {
-				return
-			}
-			mentionsCeiling := false
-			ast.Inspect(is.Cond, func(n ast.Node) bool {
-				if id, ok := n.(*ast.Ident); ok && strings.Contains(strings.ToLower(id.Name), "ceiling") {
-					mentionsCeiling = true
+			// a function in which a branch on a comparison with a ceiling constant (possibly named by a local) yields
+			// ErrRuntimeStackOverflow – in either arm of the branch, wherever it stands in the function
+			localDef := map[types.Object]ast.Expr{}
+			ast.Inspect(fd.Body, func(n ast.Node) bool {
+				if as, ok := n.(*ast.AssignStmt); ok && as.Tok == token.DEFINE && len(as.Lhs) == len(as.Rhs) {
+					for i, l := range as.Lhs {
+						if id, ok := l.(*ast.Ident); ok && info.Defs[id] != nil {
+							localDef[info.Defs[id]] = as.Rhs[i]
+						}
+					}
 				}
 				return true
 			})
-			overflow := false
-			ast.Inspect(is.Body, func(n ast.Node) bool {
-				if se, ok := n.(*ast.SelectorExpr); ok && se.Sel.Name == "ErrRuntimeStackOverflow" && isRuntimeErr(info, se) {
-					overflow = true
+			var mentions func(e ast.Node, d int) bool
+			mentions = func(e ast.Node, d int) bool {
+				r := false
+				ast.Inspect(e, func(n ast.Node) bool {
+					if id, ok := n.(*ast.Ident); ok {
+						if strings.Contains(strings.ToLower(id.Name), "ceiling") {
+							r = true
+						} else if def, ok := localDef[info.Uses[id]]; ok && d < 3 && mentions(def, d+1) {
+							r = true
+						}
+					}
+					return !r
+				})
+				return r
+			}
+			ast.Inspect(fd.Body, func(x ast.Node) bool {
+				is, ok := x.(*ast.IfStmt)
+				if !ok || !mentions(is.Cond, 0) {
+					return true
 				}
+				ast.Inspect(is, func(n ast.Node) bool {
+					if se, ok := n.(*ast.SelectorExpr); ok && se.Sel.Name == "ErrRuntimeStackOverflow" && isRuntimeErr(info, se) {
+						found = true
+					}
+					return true
+				})
 				return true
 			})
-			if mentionsCeiling && overflow {
-				found = true
-			}
 		})
 		c.Check(found, "R06.5", name+" stack ceiling", 0, "growth is preceded by a comparison with the ceiling that reports ErrRuntimeStackOverflow",
 			"no function of the "+name+" call engine compares the stack size with its ceiling before growing: unbounded recursion exhausts host memory instead of returning a stack-overflow error")
